@@ -7,6 +7,9 @@ C12 — Well-typed tree: declared shape/dtype match loaded data, no opaque objec
   `image_group_well_typed` — the same for the image group with ANY number of lines; `metadata_well_typed` /
   `leader_trees_well_typed` — the same for the whole `/metadata` tree (any counts, any designator class); `typing_is_shape_only` — the predicate
   depends only on the shape, so it transfers from the symbolic tree to every concrete output.
+* `image_group_numpy_typed` — for EVERY image file that opens: each member of the image group is a variable holding the lazy pixel
+  array or a 1-d non-empty NumPy array of a real dtype whose declared shape is its element count (through the bridge to the
+  codec's / NumPy's view of the group, `Model/Bridge.lean`).
 * `declared_shape` — the lazily wrapped image advertises `(n, m)`: loading everything returns exactly `n` rows of `m` samples
   (C01 `pixel_fidelity`), and every basic selection has NumPy's shape (C02).
 * `real_dtypes`    — the dtype tables of the source name real NumPy dtypes of the right item size, and the wrapper converts
@@ -16,6 +19,7 @@ import Alos2.Proofs.Typing
 import Alos2.Proofs.Typing2
 import Alos2.Proofs.Geometry
 import Alos2.Gen.Consts
+import Alos2.Proofs.BridgeTyped
 
 namespace Alos2.C12
 
@@ -50,6 +54,27 @@ theorem declared_shape (g : Geometry) (file : Bytes) (hn : 0 < g.n) (hb : 0 < g.
       (getitem (g.image file rpc) (.slice none none none) (.slice none none none)).1 = .ok (.d2 g.m rows) ∧ rows.length = g.n := by
   obtain ⟨rows, h1, h2, _⟩ := Geometry.pixel_fidelity g file hn hb hsize rpc hrpc
   exact ⟨rows, h1, h2⟩
+
+/-- THE IMAGE GROUPS, for every image file: whenever the (layout-based) reader opens a file with at least one line record, all of
+    one kind, and instants inside 1970 … 2262, the group as NumPy / the cache codec see it exists (`bridge_total`) and every
+    member is a variable whose data is the lazy pixel array (`data` only) or a one-dimensional, non-empty NumPy array of a REAL
+    dtype (`int64`, `float64`, `bool`, `datetime64[ns]`, `<U…`) whose declared shape is its number of elements — no object arrays,
+    no `(value, attrs)` pairs, no dicts as data (NumPy's dtype inference for the per-line lists is modelled by `columnArray`,
+    tied to the real `np.asarray` by H11) -/
+theorem image_group_numpy_typed (fr : FloatRepr) (root : String) (file : Bytes) (name : String) (rpc : Nat)
+    (gname : String) (g : ImageGroup)
+    (h : openImageFile file name rpc = .ok (gname, g))
+    (header : Val) (recs : List Val) (hr : readImageRecords file rpc = .ok (header, recs)) (hn : 0 < recs.length)
+    (hk : (∀ r ∈ recs, IsLineRecord Gen.processedDataRecord r) ∨ (∀ r ∈ recs, IsLineRecord Gen.signalDataRecord r))
+    (hd : DatesInRange g = true) :
+    ∃ path url members attrs, bridge fr root name gname g = some (.mk path url members attrs) ∧
+      ∀ k n, (k, n) ∈ members → ∃ v, n = .var v ∧
+        ((k = "data" ∧ ∃ b, v.data = .backend b) ∨
+         (∃ a, v.data = .nd a ∧ a.shape = [a.flat.length] ∧ 0 < a.flat.length ∧ realDtype a.dtype = true)) := by
+  obtain ⟨cg, hb⟩ := bridge_total fr root file name rpc gname g h header recs hr hn hk hd
+  cases cg with
+  | mk path url members attrs =>
+    exact ⟨path, url, members, attrs, hb, bridged_members_typed fr root name gname g path url members attrs hb⟩
 
 theorem real_dtypes :
     Gen.dtypes = [("C*8", "complex64", 8), ("IU2", "uint16", 2)] ∧ Gen.wrapperDtype = ["np.dtype(array.dtype)"] := by decide
